@@ -150,7 +150,17 @@ def impl(case):
         data = {AWKWARD[i]: i for i in range(min(case["n"], len(AWKWARD)))}
         if case["n"] > len(AWKWARD):
             return [[["exception", "harness: n too large for the object shape"]], []]
-    queries = [jsonpath.query("$[*]" if isinstance(data, list) else "$.*", data)]
+    # the query object comes from one of the wrappers; with a filter that reads the caller's filter context (every element
+    # passes it) the sequence is the same one
+    route = (case["alias"] + len(case["ops"])) % 4
+    if route == 1:
+        queries = [jsonpath.query("$[?@ >= _.lo]", data, filter_context={"lo": 0})]
+    elif route == 2:
+        queries = [jsonpath.JSONPathEnvironment().query("$[?@ >= _.lo && _.on]", data, filter_context={"lo": -1, "on": True})]
+    elif route == 3:
+        queries = [jsonpath.compile("$[?@ >= _.lo]").query(data, filter_context={"lo": 0})]
+    else:
+        queries = [jsonpath.query("$[*]" if isinstance(data, list) else "$.*", data)]
     dead = set()
     events = []
     for o in case["ops"]:
